@@ -7,6 +7,11 @@ use linux_raw_sys::io_uring::{IORING_ACCEPT_POLL_FIRST, IORING_RECVSEND_POLL_FIR
 use once_cell::sync::OnceCell as OnceLock;
 
 pub fn is_op_supported(code: u8) -> bool {
+    #[cfg(feature = "verif")]
+    if let Some(supported) = crate::verif::op_supported(code) {
+        return supported;
+    }
+
     static PROBE: OnceLock<io_uring::Probe> = OnceLock::new();
 
     PROBE
